@@ -1,5 +1,11 @@
-import os, sys, itertools
+import os, sys, itertools, resource
 from vf import Check, Stream, hexs
+
+# the extracted model works on Peano numbers and plain lists: files of some 100 KB need a deep stack
+try:
+    resource.setrlimit(resource.RLIMIT_STACK, (resource.RLIM_INFINITY, resource.RLIM_INFINITY))
+except (ValueError, OSError):
+    pass
 
 ALPHA = [b'/', b'\\', b'.', b'a', b'b']
 
@@ -249,6 +255,284 @@ def fs_exhaustive_cases(thorough):
     return cases
 
 
+
+# ---- part B: the property text as an executable judge -------------------------------------------
+# Independent of the Coq model: the expected tree after an operation is computed from the tree
+# observed before it, the operation, the answer of the library and the probes (what the real kernel
+# says the path texts denote), by the rules the property statement gives:
+#   * an operation that reports failure leaves the tree exactly as it was (no new file, no lost byte);
+#   * copy that reports success: the destination is a regular file holding exactly the source's bytes,
+#     nothing else changes; rename that reports success: the node the source named - which existed -
+#     is at the destination, whole, and nowhere else; with failIfExists nothing was there before;
+#   * a handle is a byte sequence with a cursor: write/append/seek/read/readAll/size have their
+#     textbook meaning on the bytes the file holds;
+#   * Directory::create answers true exactly when the directory exists afterwards, creates directories
+#     only and keeps everything that was there; recursive unlink that reports success removed exactly
+#     the directory the path names (never what a symbolic link points to), and nothing else.
+
+import zlib
+
+
+def pat_bytes(seed, n):
+    return bytes(((seed * 17 + i * 131 + (i >> 8) * 7 + (i >> 16) * 3) & 255) for i in range(n))
+
+
+def render(b):
+    if len(b) == 0:
+        return '-'
+    if len(b) <= 128:
+        return b.hex()
+    return '#%d.%08x' % (len(b), zlib.crc32(b) & 0xffffffff)
+
+
+def tok_of(path, v):
+    if v[0] == 'd':
+        return path + ':d'
+    return '%s:%s:%s' % (path, v[0], render(v[1]))
+
+
+def under(q, f):
+    return q == f or q.startswith(f + '/')
+
+
+class Bad(Exception):
+    pass
+
+
+def fs_text_judge(ops, obs):
+    """-> None, or (line index, rule, message) for the first operation whose observed outcome is not
+    one the property text allows"""
+    tree = {'in': ('d',), 'out': ('d',)}
+    H = {}
+    relaxed_copy = False
+    for k, line in enumerate(ops):
+        if k >= len(obs):
+            return None
+        o = obs[k]
+        if o.startswith('!') or o.startswith('?'):
+            return None
+        secs = o.split(' | ')
+        t = line.split(' ')
+        op = t[0]
+        if len(secs) < 4:
+            return (k, 'format', 'observation without probes: ' + o[:80])
+        res = secs[0].split(' ')
+        post_toks = set() if secs[1] == '-' else set(secs[1].split(' '))
+        hs = {}
+        if secs[2] != '-':
+            for x in secs[2].split(' '):
+                a, _, b = x.partition('@')
+                hs[int(a[1:])] = b
+        pr = {}
+        if secs[3] != '-':
+            for x in secs[3].split(' '):
+                a, _, b = x.partition('=')
+                pr[a] = b
+        exp = dict(tree)          # expected tree after the operation; rules edit it
+        try:
+            if res[0] in ('?closed', '?dir'):
+                pass
+            elif op in ('mkd', 'mkf', 'mkfbig', 'mkl'):
+                # set-up by plain system calls: take the new entry from the observation
+                if res[0] == '1':
+                    new = [x for x in post_toks if x.partition(':')[0] not in tree]
+                    if len(new) != 1:
+                        raise Bad('set-up', 'set-up operation added %d entries' % len(new))
+                    path = new[0].partition(':')[0]
+                    if op == 'mkd':
+                        exp[path] = ('d',)
+                    elif op == 'mkf':
+                        exp[path] = ('f', unhex(t[2]))
+                    elif op == 'mkfbig':
+                        exp[path] = ('f', pat_bytes(int(t[2]), int(t[3])))
+                    else:
+                        exp[path] = ('l', unhex(t[1]))
+            elif op == 'inject':
+                relaxed_copy = True
+            elif op == 'open':
+                h, fl = int(t[1]) & 7, int(t[3])
+                wr = bool(fl & 2)
+                rd = bool(fl & 1) or not wr
+                if res[0] == '1':
+                    T = pr.get('d', '-')
+                    if T == '-' or T.startswith('?'):
+                        raise Bad('open-target', 'open says true but the path denotes nothing afterwards')
+                    if T in tree:
+                        # write-only without append / open flags truncates; every other mode leaves the bytes alone
+                        if tok_of(T, tree[T]) not in post_toks and tree[T][0] == 'f' and wr and not (fl & 13):
+                            exp[T] = ('f', b'')
+                    else:
+                        if not wr or (fl & 8):
+                            raise Bad('open-creates', 'open without writeFlag, or with openFlag, says true for a file that did not exist')
+                        exp[T] = ('f', b'')
+                    if h not in H and not T.startswith('!'):
+                        v = exp[T]
+                        H[h] = {'path': T, 'pos': (len(v[1]) if (fl & 4) and v[0] == 'f' else 0), 'rd': rd, 'wr': wr, 'dir': v[0] == 'd'}
+                elif res[0] != '0':
+                    raise Bad('result', 'unexpected answer ' + res[0])
+            elif op == 'close':
+                H.pop(int(t[1]) & 7, None)
+            elif op in ('write', 'writebig', 'read', 'readall', 'seek', 'size'):
+                h = int(t[1]) & 7
+                hh = H.get(h)
+                if hh is not None and (hh['dir'] or hh['path'] not in tree or tree[hh['path']][0] != 'f' or pr.get('t') != hh['path']):
+                    H.pop(h)
+                    hh = None
+                if hh is not None:
+                    T, pos = hh['path'], hh['pos']
+                    data = tree[T][1]
+                    if op in ('write', 'writebig'):
+                        d = unhex(t[2]) if op == 'write' else pat_bytes(int(t[2]), int(t[3]))
+                        if hh['wr']:
+                            if res[0] != '1':
+                                raise Bad('write-result', 'write on a handle opened for writing says false')
+                            if d:
+                                nd = data[:pos] + b'\0' * max(0, pos - len(data)) + d + data[pos + len(d):]
+                                exp[T] = ('f', nd)
+                                hh['pos'] = pos + len(d)
+                        elif res[0] != '0':
+                            raise Bad('write-result', 'write on a handle not opened for writing says true')
+                    elif op == 'seek':
+                        off, wh = int(t[2]), int(t[3])
+                        tgt = (0 if wh == 0 else pos if wh == 1 else len(data)) + off
+                        want = tgt if tgt >= 0 else -1
+                        if res[0] != str(want):
+                            raise Bad('seek-result', 'seek answers %s, the position asked for is %d' % (res[0], want))
+                        if tgt >= 0:
+                            hh['pos'] = tgt
+                    elif op == 'size':
+                        if res[0] != str(len(data)):
+                            raise Bad('size-result', 'size answers %s, the file holds %d bytes' % (res[0], len(data)))
+                    elif op == 'readall':
+                        if hh['rd']:
+                            want = data[pos:]
+                            if res != ['1', render(want)]:
+                                raise Bad('readall-bytes', 'readAll gives `%s`, the file holds `%s` from the cursor on' % (' '.join(res), render(want)))
+                            hh['pos'] = pos + len(want)
+                        elif res[0] != '0':
+                            raise Bad('readall-result', 'readAll on a handle not opened for reading says true')
+                    elif op == 'read':
+                        if hh['rd']:
+                            want = data[pos:pos + int(t[2])]
+                            if res[0] != render(want):
+                                raise Bad('read-bytes', 'read gives `%s`, the file holds `%s` at the cursor' % (res[0], render(want)))
+                            hh['pos'] = pos + len(want)
+                        elif res[0] != '-1':
+                            raise Bad('read-result', 'read on a handle not opened for reading succeeds')
+            elif op == 'funlink':
+                if res[0] == '1':
+                    F = pr.get('s', '-')
+                    if F not in tree or tree[F][0] == 'd':
+                        raise Bad('unlink-what', 'File::unlink says true but the path named no file or link')
+                    del exp[F]
+            elif op == 'symlink':
+                if res[0] == '1':
+                    L = pr.get('d', '-')
+                    if L == '-' or L in tree:
+                        raise Bad('symlink-where', 'createSymbolicLink says true but made no new link')
+                    exp[L] = ('l', unhex(t[1]))
+            elif op == 'rename':
+                fie = t[3] == '1'
+                if res[0] == '1':
+                    # the destination: the place the text names before the operation (its directory resolved
+                    # plus the last name); where the text ends in '.', '..' or a separator, what it denotes afterwards
+                    F, T = pr.get('s', '-'), pr.get('p', '-')
+                    if T == '-':
+                        T = pr.get('d', '-')
+                    if F not in tree:
+                        raise Bad('rename-missing-source', 'rename says true although the source did not exist')
+                    if T == '-':
+                        raise Bad('rename-target', 'rename says true but nothing is at the destination')
+                    if fie and pr.get('e', '-') != '-':
+                        raise Bad('rename-fail-if-exists', 'rename with failIfExists says true although the destination existed')
+                    if F != T:
+                        moved = {q: v for q, v in tree.items() if under(q, F)}
+                        exp = {q: v for q, v in tree.items() if not under(q, F) and not under(q, T)}
+                        for q, v in moved.items():
+                            exp[T + q[len(F):]] = v
+            elif op == 'copy':
+                fie = t[3] == '1'
+                S, E, D = pr.get('s', '-'), pr.get('e', '-'), pr.get('d', '-')
+                if res[0] == '1':
+                    if S not in tree or tree[S][0] != 'f':
+                        raise Bad('copy-source', 'copy says true although the source is no regular file')
+                    if D == '-':
+                        raise Bad('copy-target', 'copy says true but nothing is at the destination')
+                    if fie and E != '-':
+                        raise Bad('copy-fail-if-exists', 'copy with failIfExists says true although the destination existed')
+                    exp[D] = ('f', tree[S][1])
+                elif relaxed_copy and E in tree and tree[E][0] == 'f' and E != S:
+                    # a transfer that was made to fail midway over an existing destination: its bytes are lost
+                    # (level_note), but no new name may appear and nothing else may change
+                    got = [x for x in post_toks if x.startswith(E + ':f:')]
+                    if got:
+                        exp[E] = ('raw', got[0])
+                relaxed_copy = False
+            elif op == 'exists':
+                S = pr.get('s', '-')
+                if not S.startswith('!') and not S.startswith('?'):
+                    want = '1' if (S in tree and tree[S][0] == 'd') else '0'
+                    if res[0] != want:
+                        raise Bad('exists-result', 'Directory::exists answers %s for `%s`' % (res[0], S))
+            elif op == 'create':
+                if res[0] != res[1]:
+                    raise Bad('create-true-iff-exists', 'Directory::create answers %s, the directory %s afterwards' % (
+                        res[0], 'exists' if res[1] == '1' else 'does not exist'))
+                for x in post_toks:                       # new directories, and only directories, may appear
+                    q, _, v = x.partition(':')
+                    if q not in tree:
+                        if v != 'd':
+                            raise Bad('create-makes-non-directory', 'Directory::create made `%s`' % x[:60])
+                        exp[q] = ('d',)
+            elif op == 'dunlink':
+                rec = t[2] == '1'
+                if res[0] == '1':
+                    F = pr.get('s', '-')
+                    if F not in tree or tree[F][0] != 'd':
+                        raise Bad('unlink-not-a-directory', 'Directory::unlink says true but the path itself named no directory (%s)' % F)
+                    if not rec and any(under(q, F) and q != F for q in tree):
+                        raise Bad('unlink-non-recursive', 'non-recursive Directory::unlink removed a directory that was not empty')
+                    exp = {q: v for q, v in tree.items() if not under(q, F)}
+                elif rec:
+                    # a recursive unlink that fails may have removed part of the tree; nothing new, nothing altered
+                    exp = {q: v for q, v in tree.items() if tok_of(q, v) in post_toks}
+            else:
+                return None
+            # the tree afterwards must be exactly the expected one
+            exp_toks = set((v[1] if v[0] == 'raw' else tok_of(q, v)) for q, v in exp.items())
+            if exp_toks != post_toks:
+                new = sorted(post_toks - exp_toks)
+                gone = sorted(exp_toks - post_toks)
+                failed = res[0] in ('0', '-1') and op not in ('read', 'seek', 'size')
+                if failed and op != 'dunlink' and op != 'create':
+                    rule = 'failure-leaves-tree-changed' if (gone or any(x.partition(':')[0] in tree for x in new)) else 'failure-leaves-new-name'
+                elif any(x.startswith('!') or under(x.partition(':')[0], 'out') for x in new + gone):
+                    rule = 'tree-outside'
+                else:
+                    rule = 'tree'
+                raise Bad(rule, 'after `%s` answering %s: unexpected %s, missing %s' % (
+                    op, ' '.join(res), [x[:70] for x in new[:3]], [x[:70] for x in gone[:3]]))
+            # cursors of the tracked handles
+            for h, hh in H.items():
+                if not hh['dir'] and h in hs and hs[h] != str(hh['pos']):
+                    raise Bad('cursor', 'handle %d is at %s, the byte-sequence reading puts it at %d' % (h, hs[h], hh['pos']))
+        except Bad as b:
+            return (k, b.args[0], b.args[1])
+        # carry the expected (= observed) tree forward
+        tree = {}
+        for q, v in exp.items():
+            if v[0] == 'raw':
+                continue
+            tree[q] = v
+        for x in post_toks:                                # a destination left with unknown bytes (relaxed copy)
+            q, _, v = x.partition(':')
+            if q not in tree:
+                tree[q] = ('f', b'') if v.startswith('f:') else ('d',)
+        for h in [h for h, hh in H.items() if hh['path'] not in tree]:
+            H.pop(h)
+    return None
+
+
 class C19(Check):
     id = 'C19'
     comp = 'Path'
@@ -320,6 +604,17 @@ class C19(Check):
         argument) so that one report is made per kind of failure rather than per byte pattern"""
         from vf import first_diff
         fails = []
+        # B, first the property text itself (independent of the model), then the model of the repaired code
+        text_failed = set()
+        for i, c in enumerate(cases):
+            if c and c[0].startswith('@fs'):
+                r = fs_text_judge(c[1:], impl_obs[i])
+                if r:
+                    k, rule, msg = r
+                    opn = c[1 + k].split(' ')[0] if 1 + k < len(c) else '?'
+                    cls = ('fs-text/%s/%s' % (opn, rule)).replace('0', 'o').ljust(80)
+                    fails.append((i, k, cls + ' ' + msg))
+                    text_failed.add(i)
         for i, (s, o) in enumerate(zip(spec_obs, impl_obs)):
             k = first_diff(s, o)
             if k is None:
@@ -329,6 +624,8 @@ class C19(Check):
             ops_i = cases[i][1:] if cases[i] and cases[i][0].startswith('@') else cases[i]
             opl = ops_i[k].split() if k < len(ops_i) else ['?']
             if cases[i] and cases[i][0].startswith('@fs'):
+                if i in text_failed:
+                    continue
                 es, gs = exp.split(' | '), got.split(' | ')
                 if got.startswith('!'):
                     what = got
